@@ -667,7 +667,7 @@ package ecs
 //@ func World.createArchetype(w, node, target, forStorage) (arch)
 //@   props C16
 //@   requires regInv(&w.registry) && node != nil
-//@   flag convcheck nodirty noframe
+//@   flag convcheck nodirty assumedframe
 //@   ensures arch != nil
 //@   ensures node.HasRelation ==> arch.node == node && arch.archetypeAccess.RelationTarget == target && arch.archetypeData != nil
 //@   modifies *(&w.archetypes), *(&w.archetypeData), all(nodeData.freeIndices), all(archetypeData.index), all(cacheEntry.Indices), all(nodeData.archetype), all(archNode.IsActive)
@@ -949,43 +949,58 @@ package ecs
 //@   inv psumF(q.archetypes.data, int(q.archIndex) + 1) == psumF(q.archetypes.data, int(old(q.archIndex)) + 1)
 //@   inv q.nodeIndex == old(q.nodeIndex) && q.access == old(q.access) && q.archetype == old(q.archetype) && q.entityIndex == old(q.entityIndex) && q.entityIndexMax == old(q.entityIndexMax)
 
-// The contracts below cover the filtered (cached-filter) strategy: requires q.isFiltered. The same functions run
-// the batch and node-walk strategies on other branches; those branches are excluded here by the precondition.
+// Functional clauses below are stated for the filtered (cached-filter) strategy (guard q.isFiltered).
+
+// The batch-result and node-walk strategies are under assumed contracts (they walk interface-typed table
+// lists, maps and paged slices); what callers of Next rely on for them is only that a positioned cursor is usable.
+//@ func Query.nextBatch(q) (ok)
+//@   flag trusted nodirty
+//@   ensures ok ==> q.access != nil && q.archetype != nil
+//@   ensures q.isFiltered == old(q.isFiltered) && q.isBatch == old(q.isBatch) && q.world == old(q.world) && q.lockBit == old(q.lockBit)
+//@   modifies q.archIndex, q.nodeIndex, q.access, q.archetype, q.entityIndex, q.entityIndexMax, q.nodeArchetypes, q.world.locks.locks.bits, *(&q.world.locks.bitPool)
+//@ func Query.nextNodeOrArchetype(q) (ok)
+//@   flag trusted nodirty
+//@   ensures ok ==> q.access != nil && q.archetype != nil
+//@   ensures q.isFiltered == old(q.isFiltered) && q.isBatch == old(q.isBatch) && q.world == old(q.world) && q.lockBit == old(q.lockBit)
+//@   modifies q.archIndex, q.nodeIndex, q.access, q.archetype, q.entityIndex, q.entityIndexMax, q.nodeArchetypes, q.world.locks.locks.bits, *(&q.world.locks.bitPool)
 
 //@ func Query.nextArchetype(q) (ok)
 //@   props C03
-//@   requires q.isFiltered
-//@   requires listOK(q) && lockInv(&q.world.locks) && validID(q.lockBit) && specBit(q.world.locks.locks, q.lockBit)
-//@   requires q.archIndex >= -1 && int(q.archIndex) < len(q.archetypes)
-//@   assume psumFDef(q)
-//@   ensures ok ==> old(q.archIndex) < q.archIndex && curOKF(q) && q.entityIndex == 0 && q.archIndex >= 0
-//@   ensures ok ==> psumF(q.archetypes.data, int(q.archIndex)) == psumF(q.archetypes.data, int(old(q.archIndex)) + 1)
-//@   ensures ok && old(q.archIndex) >= 0 ==> psumF(q.archetypes.data, int(q.archIndex)) == psumF(q.archetypes.data, int(old(q.archIndex))) + old(q.archetypes[int(q.archIndex)].len)
-//@   ensures ok && old(q.archIndex) == -1 ==> psumF(q.archetypes.data, int(q.archIndex)) == 0
-//@   ensures !ok ==> psumF(q.archetypes.data, len(q.archetypes)) == psumF(q.archetypes.data, int(old(q.archIndex)) + 1)
-//@   ensures !ok && old(q.archIndex) >= 0 ==> psumF(q.archetypes.data, len(q.archetypes)) == psumF(q.archetypes.data, int(old(q.archIndex))) + old(q.archetypes[int(q.archIndex)].len)
-//@   ensures !ok && old(q.archIndex) == -1 ==> psumF(q.archetypes.data, len(q.archetypes)) == 0
-//@   ensures !ok ==> q.archIndex == -2 && !specBit(q.world.locks.locks, q.lockBit)
-//@   ensures ok ==> specBit(q.world.locks.locks, q.lockBit) && lockInv(&q.world.locks)
-//@   modifies q.archIndex, q.nodeIndex, q.access, q.archetype, q.entityIndex, q.entityIndexMax, q.world.locks.locks.bits, *(&q.world.locks.bitPool)
+//@   requires q.isFiltered ==> listOK(q) && lockInv(&q.world.locks) && validID(q.lockBit) && specBit(q.world.locks.locks, q.lockBit)
+//@   requires q.isFiltered ==> q.archIndex >= -1 && int(q.archIndex) < len(q.archetypes)
+//@   assume q.isFiltered ==> psumFDef(q)
+//@   ensures ok ==> q.access != nil && q.archetype != nil
+//@   ensures q.isFiltered == old(q.isFiltered) && q.isBatch == old(q.isBatch) && q.world == old(q.world) && q.lockBit == old(q.lockBit)
+//@   ensures q.isFiltered && ok ==> old(q.archIndex) < q.archIndex && curOKF(q) && q.entityIndex == 0 && q.archIndex >= 0
+//@   ensures q.isFiltered && ok ==> psumF(q.archetypes.data, int(q.archIndex)) == psumF(q.archetypes.data, int(old(q.archIndex)) + 1)
+//@   ensures q.isFiltered && ok && old(q.archIndex) >= 0 ==> psumF(q.archetypes.data, int(q.archIndex)) == psumF(q.archetypes.data, int(old(q.archIndex))) + old(q.archetypes[int(q.archIndex)].len)
+//@   ensures q.isFiltered && ok && old(q.archIndex) == -1 ==> psumF(q.archetypes.data, int(q.archIndex)) == 0
+//@   ensures q.isFiltered && !ok ==> psumF(q.archetypes.data, len(q.archetypes)) == psumF(q.archetypes.data, int(old(q.archIndex)) + 1)
+//@   ensures q.isFiltered && !ok && old(q.archIndex) >= 0 ==> psumF(q.archetypes.data, len(q.archetypes)) == psumF(q.archetypes.data, int(old(q.archIndex))) + old(q.archetypes[int(q.archIndex)].len)
+//@   ensures q.isFiltered && !ok && old(q.archIndex) == -1 ==> psumF(q.archetypes.data, len(q.archetypes)) == 0
+//@   ensures q.isFiltered && !ok ==> q.archIndex == -2 && !specBit(q.world.locks.locks, q.lockBit)
+//@   ensures q.isFiltered && ok ==> specBit(q.world.locks.locks, q.lockBit) && lockInv(&q.world.locks)
+//@   modifies q.archIndex, q.nodeIndex, q.access, q.archetype, q.entityIndex, q.entityIndexMax, q.nodeArchetypes, q.world.locks.locks.bits, *(&q.world.locks.bitPool)
 
 // successor: Next advances the global position by exactly one, or closes the query exactly when the position was the last one
 //@ func Query.Next(q) (ok)
 //@   props C03
-//@   requires q.isFiltered
-//@   requires listOK(q) && curOKF(q) && lockInv(&q.world.locks) && validID(q.lockBit) && specBit(q.world.locks.locks, q.lockBit)
-//@   assume psumFDef(q)
-//@   assume psumFMono(q)
-//@   hint old(q.archIndex) >= 0 ==> psumF(q.archetypes.data, int(old(q.archIndex)) + 1) == psumF(q.archetypes.data, int(old(q.archIndex))) + old(q.archetype.len)
-//@   hint old(q.archIndex) == -1 ==> psumF(q.archetypes.data, int(old(q.archIndex)) + 1) == 0
-//@   ensures ok ==> curOKF(q)
-//@   ensures ok ==> q.archIndex >= 0
-//@   ensures ok && old(q.entityIndex) < old(q.entityIndexMax) ==> posF(q) == old(posF(q)) + 1
-//@   ensures ok && old(q.entityIndex) >= old(q.entityIndexMax) ==> posF(q) == old(posF(q)) + 1
-//@   ensures ok ==> specBit(q.world.locks.locks, q.lockBit) && lockInv(&q.world.locks)
-//@   ensures !ok ==> old(posF(q)) + 1 == int(psumF(q.archetypes.data, len(q.archetypes)))
-//@   ensures !ok ==> q.archIndex == -2 && !specBit(q.world.locks.locks, q.lockBit)
-//@   modifies q.archIndex, q.nodeIndex, q.access, q.archetype, q.entityIndex, q.entityIndexMax, q.world.locks.locks.bits, *(&q.world.locks.bitPool)
+//@   requires q.isFiltered ==> listOK(q) && curOKF(q) && lockInv(&q.world.locks) && validID(q.lockBit) && specBit(q.world.locks.locks, q.lockBit)
+//@   assume q.isFiltered ==> psumFDef(q)
+//@   assume q.isFiltered ==> psumFMono(q)
+//@   hint q.isFiltered && old(q.archIndex) >= 0 ==> psumF(q.archetypes.data, int(old(q.archIndex)) + 1) == psumF(q.archetypes.data, int(old(q.archIndex))) + old(q.archetype.len)
+//@   hint q.isFiltered && old(q.archIndex) == -1 ==> psumF(q.archetypes.data, int(old(q.archIndex)) + 1) == 0
+//@   ensures q.isFiltered == old(q.isFiltered) && q.isBatch == old(q.isBatch) && q.world == old(q.world) && q.lockBit == old(q.lockBit)
+//@   ensures ok && (old(q.entityIndex) >= old(q.entityIndexMax)) ==> q.access != nil
+//@   ensures ok && (old(q.entityIndex) < old(q.entityIndexMax)) ==> q.access == old(q.access)
+//@   ensures q.isFiltered && ok ==> curOKF(q)
+//@   ensures q.isFiltered && ok ==> q.archIndex >= 0
+//@   ensures q.isFiltered && ok && old(q.entityIndex) < old(q.entityIndexMax) ==> posF(q) == old(posF(q)) + 1
+//@   ensures q.isFiltered && ok && old(q.entityIndex) >= old(q.entityIndexMax) ==> posF(q) == old(posF(q)) + 1
+//@   ensures q.isFiltered && ok ==> specBit(q.world.locks.locks, q.lockBit) && lockInv(&q.world.locks)
+//@   ensures q.isFiltered && !ok ==> old(posF(q)) + 1 == int(psumF(q.archetypes.data, len(q.archetypes)))
+//@   ensures q.isFiltered && !ok ==> q.archIndex == -2 && !specBit(q.world.locks.locks, q.lockBit)
+//@   modifies q.archIndex, q.nodeIndex, q.access, q.archetype, q.entityIndex, q.entityIndexMax, q.nodeArchetypes, q.world.locks.locks.bits, *(&q.world.locks.bitPool)
 
 //@ func Query.countEntities(q) (n)
 //@   props C03
@@ -1059,7 +1074,7 @@ package ecs
 //@   ensures ok ==> specBit(q.world.locks.locks, q.lockBit) && lockInv(&q.world.locks)
 //@   ensures !ok ==> old(posF(q)) + n >= int(psumF(q.archetypes.data, len(q.archetypes)))
 //@   ensures !ok ==> q.archIndex == -2 && !specBit(q.world.locks.locks, q.lockBit)
-//@   modifies q.archIndex, q.nodeIndex, q.access, q.archetype, q.entityIndex, q.entityIndexMax, q.world.locks.locks.bits, *(&q.world.locks.bitPool)
+//@   modifies q.archIndex, q.nodeIndex, q.access, q.archetype, q.entityIndex, q.entityIndexMax, q.nodeArchetypes, q.world.locks.locks.bits, *(&q.world.locks.bitPool)
 //@   loop #1
 //@   inv curOKF(q) && 1 <= step && step < 2147483648 && posF(q) + step == old(posF(q)) + n
 //@   inv lockInv(&q.world.locks) && specBit(q.world.locks.locks, q.lockBit) && q.lockBit == old(q.lockBit) && q.world == old(q.world) && q.isFiltered
@@ -1171,6 +1186,7 @@ package ecs
 //@   requires bitSetCovers(&w.targetEntities, len(w.entities))
 //@   requires entAlive(w, entity) ==> int(w.entities[int(entity.id)].arch.archetypeAccess.RelationTarget.id) < len(w.entities)
 //@   flag may_panic noframe
+//@   lockfast isLocked(w)
 //@   ensures w.listener == nil ==> notifyCount[w.listener.val] == old(notifyCount[w.listener.val])
 
 // ---------------------------------------------------------------------------------------------
@@ -1338,7 +1354,8 @@ package ecs
 //@   props C07 C10
 //@   requires f != nil && cacheIdxInv(c)
 //@   panics_if !mapHas(c.indices, f.id)
-//@   flag panic_clean noframe
+//@   flag panic_clean noframe nodirty
+//@   modifies *c, c.filters[ALL], c.indices[ALL], c.intPool.pool[ALL]
 //@   ensures cacheIdxInv(c) && len(c.filters) == old(len(c.filters)) - 1 && !mapHas(c.indices, f.id)
 //@   ensures r == old(c.filters[c.indices[f.id]].Filter)
 //@   ensures forall id uint32 :: {mapHas(c.indices, id)} id != f.id ==> mapHas(c.indices, id) == old(mapHas(c.indices, id))
@@ -1355,7 +1372,8 @@ package ecs
 //@   props C07 C10
 //@   requires cacheIdxInv(c) && cacheIdsUsed(c) && intPoolInv(&c.intPool) && len(c.intPool.pool) < 1073741823 && c.intPool.capacityIncrement < 1073741823
 //@   panics_if is(f, *CachedFilter)
-//@   flag panic_clean noframe
+//@   flag panic_clean noframe nodirty
+//@   modifies *c, c.filters[ALL], c.indices[ALL], c.intPool.pool[ALL]
 //@   ensures cacheIdxInv(c) && cacheIdsUsed(c) && intPoolInv(&c.intPool)
 //@   ensures len(c.filters) == old(len(c.filters)) + 1 && r.filter == f && !old(mapHas(c.indices, r.id)) && mapHas(c.indices, r.id) && c.indices[r.id] == old(len(c.filters))
 //@   ensures c.filters[old(len(c.filters))].Filter == f && c.filters[old(len(c.filters))].Indices == nil
@@ -1422,7 +1440,7 @@ package ecs
 //@   requires bitSetCovers(&w.targetEntities, len(w.entities))
 //@   requires entAlive(w, entity) ==> int(w.entities[int(entity.id)].arch.archetypeAccess.RelationTarget.id) < len(w.entities)
 //@   flag nosafe may_panic panic_clean
-//@   panics_if isLocked(w)
+//@   lockfast isLocked(w)
 //@   panics_if !entAlive(w, entity)
 //@   panics_if len(add) == 0 && len(rem) == 0 && hasRelation
 //@   panics_if hasRelation && target.id != 0 && !entAlive(w, target)
@@ -1439,6 +1457,7 @@ package ecs
 //@        && entAt(&old(w.entities[int(entity.id)].arch).archetypeAccess, old(w.entities[int(entity.id)].index)).id != entity.id ==>
 //@        w.entities[int(entAt(&old(w.entities[int(entity.id)].arch).archetypeAccess, old(w.entities[int(entity.id)].index)).id)].index == old(w.entities[int(entity.id)].index)
 //@   flag noframe
+//@   modifies all(entityIndex.arch), all(entityIndex.index), all(archetype.cap), all(archetype.len), all(archetypeAccess.entityPointer), all(layout.pointer), w.targetEntities.data[ALL]
 //@   loop #1
 //@   inv (exists k int :: {rem[k]} 0 <= k && k < $i && specBit(w.registry.IsRelation, rem[k].id)) == false
 
@@ -1484,3 +1503,37 @@ package ecs
 //@   ensures forall i eid :: {w.entityPool.eused[i]} i != entity.id ==> w.entityPool.eused[i] == old(w.entityPool.eused[i])
 //@   ensures poolInv(&w.entityPool) && issuedInv(&w.entityPool) && lockInv(&w.locks) && !isLocked(w)
 //@   ensures w.entities[int(entity.id)].arch == nil
+
+// ---------------------------------------------------------------------------------------------
+// C17 / C02 / C09 — query construction, entity dump and load
+// ---------------------------------------------------------------------------------------------
+
+// World.Query takes one lock bit for the new query (C09: constructors ensure "bit set").
+//@ func World.Query(w, filter) (q)
+//@   props C09 C03
+//@   requires lockInv(&w.locks) && filter != nil
+//@   requires is(filter, *CachedFilter) ==> as(filter, *CachedFilter) != nil && w.filterCache.indices != nil && mapHas(w.filterCache.indices, as(filter, *CachedFilter).id)
+//@   requires forall id uint32 :: {mapHas(w.filterCache.indices, id)} mapHas(w.filterCache.indices, id) ==> 0 <= w.filterCache.indices[id] && w.filterCache.indices[id] < len(w.filterCache.filters)
+//@   panics_if w.locks.bitPool.available == 0 && int(w.locks.bitPool.length) >= MaskTotalBits
+//@   modifies w.locks.locks.bits, *(&w.locks.bitPool)
+//@   ensures q.world == w && lockInv(&w.locks) && specBit(w.locks.locks, q.lockBit) && !old(specBit(w.locks.locks, q.lockBit)) && validID(q.lockBit)
+//@   ensures forall! b uint8 :: b != q.lockBit ==> specBit(w.locks.locks, b) == old(specBit(w.locks.locks, b))
+//@   ensures q.isFiltered == is(filter, *CachedFilter) && !q.isBatch && q.archIndex == -1 && q.nodeIndex == -1 && q.entityIndex == 0 && q.entityIndexMax == 0 && q.count == -1
+//@   ensures q.isFiltered ==> q.archetypes == w.filterCache.filters[w.filterCache.indices[as(filter, *CachedFilter).id]].Archetypes.pointers
+
+// DumpEntities returns a deep copy of the pool view: a NEW backing store holding the pool's entities, the free-list head and count.
+//@ func World.DumpEntities(w) (d)
+//@   props C17 C02
+//@   requires lockInv(&w.locks)
+//@   requires forall id uint32 :: {mapHas(w.filterCache.indices, id)} mapHas(w.filterCache.indices, id) ==> 0 <= w.filterCache.indices[id] && w.filterCache.indices[id] < len(w.filterCache.filters)
+//@   flag may_panic noframe nosafe
+//@   ensures fresh(d.Entities.data) && len(d.Entities) == len(w.entityPool.entities)
+//@   ensures forall k int :: {d.Entities[k].id} 0 <= k && k < len(d.Entities) ==> d.Entities[k].id == w.entityPool.entities[k].id && d.Entities[k].gen == w.entityPool.entities[k].gen
+//@   ensures d.Next == uint32(w.entityPool.next) && d.Available == w.entityPool.available
+//@   ensures len(w.entityPool.entities) == old(len(w.entityPool.entities)) && w.entityPool.entities.data == old(w.entityPool.entities.data)
+//@   ensures forall k int :: {w.entityPool.entities[k].id} 0 <= k && k < len(w.entityPool.entities) ==> w.entityPool.entities[k].id == old(w.entityPool.entities[k].id) && w.entityPool.entities[k].gen == old(w.entityPool.entities[k].gen)
+//@   loop #1
+//@   inv w.entityPool.entities == old(w.entityPool.entities) && w.entityPool.next == old(w.entityPool.next) && w.entityPool.available == old(w.entityPool.available)
+//@   inv forall k int :: {w.entityPool.entities[k].id} 0 <= k && k < len(w.entityPool.entities) ==> w.entityPool.entities[k].id == old(w.entityPool.entities[k].id) && w.entityPool.entities[k].gen == old(w.entityPool.entities[k].gen)
+//@   inv !query.isFiltered && query.world == w
+//@   inv query.access != nil || query.entityIndex >= query.entityIndexMax
